@@ -14,8 +14,14 @@ Ghost `log`: the effective updates with their thread, NEWEST FIRST; `replay`/`fo
 
 Gauge arithmetic is over an abstract carrier (`Carrier F`: add, sub, to_bits, from_bits); IEEE rounding is not
 modelled (nothing below depends on what `add`/`sub` compute).
+
+Round 4: `fetch_update` is no longer one trusted step.  `Model/AtomicsCas.lean` runs gauge increment/decrement as
+std's load + `compare_exchange_weak` loop (one step per evaluation of the closure — the granularity of hook-C04's
+yield point); `cas_refines_rmw` shows every run of that machine is a run of the single-RMW machine on a
+subsequence of the schedule, and the `cas_*` theorems carry linearization / exactly-once / sums over.
 -/
 import MetricsVerif.Proofs.Atomics
+import MetricsVerif.Proofs.AtomicsCas
 import MetricsVerif.Generated.SourceFacts
 
 namespace MetricsVerif.C04
@@ -512,6 +518,245 @@ theorem src_arc_impls_forward : Generated.handles_arc_forward_bodies = arcForwar
 
 /-- obligation: `from_arc(a)` is `Self { inner: Some(a) }` and `From<Arc<T>>` is `from_arc` (`Handle.fromArc`) -/
 theorem src_ctor_bodies : Generated.handles_ctor_bodies = ctorTable := by decide
+
+/-! ## round 4: inside `fetch_update` — the compare-and-swap loop (`Model/AtomicsCas.lean`)
+
+Up to round 3 `fetch_update` was ONE trusted step.  Here the gauge increment / decrement are what std executes:
+`prev = load; loop { next = closure(prev); CAS(prev → next) succeeds → return | fails → prev = value seen }`, a
+thread can be stopped between the load / a failed CAS and the next CAS (the `#[cfg(metrics_verif)]` yield point
+at the head of the closure: hook-C04), and `compare_exchange_weak` may fail spuriously.  All statements are for
+every shape (any update may be a CAS loop), every schedule incl. spurious failures, any number of threads. -/
+
+/-- **cas_refines_rmw**: whatever the CAS-loop machine does under a schedule, the single-RMW machine does under a
+    subsequence of that schedule's thread ids (the steps at which a CAS succeeded, a single instruction ran, or a
+    no-op call returned): same cell, same log, same wrap flag, same calls left in every thread.  Loads and failed
+    CASes change nothing but the thread's private `prev`. -/
+theorem cas_refines_rmw (A : Carrier F) (sh : Shape) (c0 : Nat) (progs : List (List (Call F)))
+    (sched : List (Nat × Bool)) :
+    ∃ sched' : List Nat, sched'.Sublist (sched.map Prod.fst)
+      ∧ erase (casRun A sh (init c0 progs) sched) = run A allRmw (init c0 progs) sched' := by
+  obtain ⟨sched', hs, he⟩ := cas_run_refines A sh sched (init c0 progs)
+  exact ⟨sched', hs, by rw [he, erase_init]⟩
+
+/-- **cas_linearization**: on the CAS-loop machine too the cell is, in every reachable state, the initial value
+    with the logged updates applied one after the other — a successful CAS applies the closure to the value that
+    IS in the cell at that instant (`prev` = cell), so no update is computed from a stale value -/
+theorem cas_linearization (A : Carrier F) (sh : Shape) (c0 : Nat) (progs : List (List (Call F)))
+    (sched : List (Nat × Bool)) :
+    (casRun A sh (init c0 progs) sched).cell = replay A c0 (casRun A sh (init c0 progs) sched).log := by
+  obtain ⟨sched', _, he⟩ := cas_refines_rmw A sh c0 progs sched
+  have h := linearization A allRmw_all c0 progs sched'
+  rw [← he] at h
+  exact h
+
+/-- **cas_exactly_once**: none lost, none doubled on the CAS-loop machine: per thread, logged updates followed by
+    the updates still to make are its program's effective updates in program order — retries do not re-apply -/
+theorem cas_exactly_once (A : Carrier F) (sh : Shape) (c0 : Nat) (progs : List (List (Call F)))
+    (sched : List (Nat × Bool)) (tid : Nat) (p : List (Call F)) (hp : progs[tid]? = some p) :
+    ∃ t, (casRun A sh (init c0 progs) sched).threads[tid]? = some t
+      ∧ effOps p = (proj tid (casRun A sh (init c0 progs) sched).log).reverse ++ effOps t.prog := by
+  obtain ⟨sched', _, he⟩ := cas_refines_rmw A sh c0 progs sched
+  obtain ⟨t', ht', hpr⟩ := exactly_once A allRmw_all c0 progs sched' tid p hp
+  rw [← he, erase_threads_get] at ht'
+  rw [← he] at hpr
+  cases hg : (casRun A sh (init c0 progs) sched).threads[tid]? with
+  | none => rw [hg] at ht'; cases ht'
+  | some t =>
+    rw [hg] at ht'
+    simp only [Option.map_some, Option.some.injEq] at ht'
+    subst ht'
+    exact ⟨t, rfl, hpr⟩
+
+/-- **cas_gauge_linear_ieee**: gauge programs (increment / decrement / set, any f64 operands) on the CAS-loop
+    machine with IEEE-754 arithmetic on the bits: the cell is the fold of ALL logged updates in the order they
+    took effect, and log length + calls still to make = all effective calls -/
+theorem cas_gauge_linear_ieee (sh : Shape) (c0 : Nat) (progs : List (List (Call Nat)))
+    (hg : ∀ p ∈ progs, ∀ op ∈ effOps p, GaugeOp op) (sched : List (Nat × Bool)) :
+    (casRun ieeeCarrier sh (init c0 progs) sched).cell
+      = (casRun ieeeCarrier sh (init c0 progs) sched).log.foldr (fun e x => gApply ieeeCarrier e.2 x) c0
+    ∧ (casRun ieeeCarrier sh (init c0 progs) sched).log.length + pendingLen (casRun ieeeCarrier sh (init c0 progs) sched)
+        = (progs.map (fun p => (effOps p).length)).sum := by
+  obtain ⟨sched', _, he⟩ := cas_refines_rmw ieeeCarrier sh c0 progs sched
+  have h := gauge_linear_ieee allRmw_all c0 progs hg sched'
+  rw [← he, erase_pendingLen] at h
+  exact ⟨h.1, h.2.2⟩
+
+/-- **cas_counter_sum**: increments only, even if `fetch_add` itself were a CAS loop (as on targets without a
+    native 64-bit RMW): once every thread has returned the counter is (initial + Σ increments) mod 2^64 -/
+theorem cas_counter_sum (A : Carrier F) (sh : Shape) (c0 : Nat) (hc : c0 < two64) (progs : List (List (Call F)))
+    (hinc : ∀ p ∈ progs, IncOnlyProg p) (sched : List (Nat × Bool))
+    (hd : AllDone (casRun A sh (init c0 progs) sched)) :
+    (casRun A sh (init c0 progs) sched).cell = (c0 + (progs.map progSum).sum) % two64 := by
+  obtain ⟨sched', _, he⟩ := cas_refines_rmw A sh c0 progs sched
+  have hd' : AllDone (run A allRmw (init c0 progs) sched') := by rw [← he]; exact (erase_allDone _).mpr hd
+  have h := counter_sum A allRmw_all c0 hc progs hinc sched' hd'
+  rw [← he] at h
+  exact h
+
+/-- a thread whose `prev` is what the cell holds (or whose call is a single instruction, or goes through a no-op
+    handle) completes its call in the step it is granted -/
+theorem cas_commits_when_fresh (A : Carrier F) (sh : Shape) (s1 : Sys F) (tid : Nat) (t1 : Thread F) (c : Call F)
+    (rest : List (Call F)) (hg1 : s1.threads[tid]? = some t1) (hp1 : t1.prog = c :: rest)
+    (htmp : ∀ u, c.h = some u → sh.rmw c.op = false → t1.tmp = some s1.cell) :
+    ∃ t2, (casStep A sh s1 (tid, false)).threads[tid]? = some t2 ∧ t2.prog = rest := by
+  have hlt1 := lt_of_getElem? hg1
+  unfold casStep
+  simp only [hg1]
+  unfold casStepThread
+  simp only [hp1]
+  cases hh : c.h with
+  | none => exact ⟨{ prog := rest, tmp := none }, by simp [getElem?_setAt, hlt1], rfl⟩
+  | some u =>
+    cases hr : sh.rmw c.op with
+    | true => exact ⟨{ prog := rest, tmp := none }, by simp [commit, getElem?_setAt, hlt1], rfl⟩
+    | false =>
+      simp only [Bool.false_eq_true, if_false, htmp u hh hr, and_self, if_true]
+      exact ⟨{ prog := rest, tmp := none }, by simp [commit, getElem?_setAt, hlt1], rfl⟩
+
+/-- **cas_fails_only_on_interference**: a thread has read the cell (`prev` = cell); other threads then take any
+    steps (`mid`: loads, failed and spurious CASes, calls through no-op handles — anything) during which NO update
+    takes effect (the log does not grow).  Then the thread's next compare-exchange succeeds and its call returns.
+    Contrapositive: every real CAS failure — every re-evaluation of the closure — is paid for by an update of
+    another thread that took effect since the value was read; a gauge update cannot be starved by readers or by
+    threads that themselves keep failing. -/
+theorem cas_fails_only_on_interference (A : Carrier F) (sh : Shape) (s : Sys F) (tid : Nat) (t : Thread F)
+    (c : Call F) (rest : List (Call F)) (hg : s.threads[tid]? = some t) (hp : t.prog = c :: rest)
+    (htmp : t.tmp = some s.cell) (mid : List (Nat × Bool)) (hmid : ∀ x ∈ mid, x.1 ≠ tid)
+    (hlog : (casRun A sh s mid).log.length = s.log.length) :
+    ∃ t2, (casStep A sh (casRun A sh s mid) (tid, false)).threads[tid]? = some t2 ∧ t2.prog = rest := by
+  have hth := casRun_other_threads A sh tid mid s hmid
+  have hcell := casRun_cell_of_log A sh mid s hlog
+  exact cas_commits_when_fresh A sh _ tid t c rest (by rw [hth, hg]) hp (fun _ _ _ => by rw [hcell]; exact htmp)
+
+/-- **cas_obstruction_free**: a thread that is granted two steps in a row (no other thread in between, no spurious
+    failure) completes the call it is in — whatever `prev` it held: the first step (re)loads or commits, the
+    second commits.  So every retry is CAUSED by another thread's step in between; there is no livelock of a
+    thread running alone, for any operand (NaN and ±0.0 cells included: the CAS compares bits). -/
+theorem cas_obstruction_free (A : Carrier F) (sh : Shape) (s : Sys F) (tid : Nat) (t : Thread F) (c : Call F)
+    (rest : List (Call F)) (hg : s.threads[tid]? = some t) (hp : t.prog = c :: rest) :
+    (∃ t1, (casStep A sh s (tid, false)).threads[tid]? = some t1 ∧ t1.prog = rest)
+    ∨ (∃ t2, (casStep A sh (casStep A sh s (tid, false)) (tid, false)).threads[tid]? = some t2 ∧ t2.prog = rest) := by
+  have hlt := lt_of_getElem? hg
+  -- a step of a thread parked at the CAS with `prev` = cell commits
+  have hcas : ∀ (s1 : Sys F) (t1 : Thread F), s1.threads[tid]? = some t1 → t1.prog = c :: rest →
+      (∀ u, c.h = some u → sh.rmw c.op = false → t1.tmp = some s1.cell) →
+      ∃ t2, (casStep A sh s1 (tid, false)).threads[tid]? = some t2 ∧ t2.prog = rest := by
+    intro s1 t1 hg1 hp1 htmp
+    have hlt1 := lt_of_getElem? hg1
+    unfold casStep
+    simp only [hg1]
+    unfold casStepThread
+    simp only [hp1]
+    cases hh : c.h with
+    | none => exact ⟨{ prog := rest, tmp := none }, by simp [getElem?_setAt, hlt1], rfl⟩
+    | some u =>
+      cases hr : sh.rmw c.op with
+      | true => exact ⟨{ prog := rest, tmp := none }, by simp [commit, getElem?_setAt, hlt1], rfl⟩
+      | false =>
+        simp only [Bool.false_eq_true, if_false, htmp u hh hr, and_self, if_true]
+        exact ⟨{ prog := rest, tmp := none }, by simp [commit, getElem?_setAt, hlt1], rfl⟩
+  cases hh : c.h with
+  | none => exact .inl (hcas s t hg hp (fun u hu => by rw [hh] at hu; cases hu))
+  | some u =>
+    cases hr : sh.rmw c.op with
+    | true => exact .inl (hcas s t hg hp (fun _ _ hf => by rw [hr] at hf; cases hf))
+    | false =>
+      by_cases hc : t.tmp = some s.cell
+      · exact .inl (hcas s t hg hp (fun _ _ _ => hc))
+      · -- the first step only reloads: cell unchanged, `prev` = cell afterwards
+        refine .inr ?_
+        have h1 : casStep A sh s (tid, false) = { s with threads := setAt s.threads tid { t with tmp := some s.cell } } := by
+          unfold casStep
+          simp only [hg]
+          unfold casStepThread
+          simp only [hp, hh, hr, Bool.false_eq_true, if_false]
+          cases ht : t.tmp with
+          | none => rfl
+          | some prev =>
+            have hne : ¬ (prev = s.cell ∧ True) := by
+              intro hx; apply hc; rw [ht, hx.1]
+            simp only [if_neg hne]
+        rw [h1]
+        exact hcas _ { t with tmp := some s.cell } (by simp [getElem?_setAt, hlt]) hp (fun _ _ _ => rfl)
+
+/-- the shape of atomics.rs at CAS-loop granularity, from the source: `fetch_add`, `fetch_max`, `swap` are single
+    instructions, an update made with `fetch_update` is a CAS loop -/
+def srcCasShape : Shape :=
+  { inc := Generated.atomics_counter_increment_methods == ["fetch_add"]
+    abs := Generated.atomics_counter_absolute_methods == ["fetch_max"]
+    gInc := !(Generated.atomics_gauge_increment_methods == ["fetch_update"])
+    gDec := !(Generated.atomics_gauge_decrement_methods == ["fetch_update"])
+    gSet := Generated.atomics_gauge_set_methods == ["swap"] }
+
+/-- obligation: the machine the scheduled correspondence runs use (`casShape`) is the source's -/
+theorem src_cas_shape : srcCasShape = casShape := by decide
+
+/-- obligation: each `fetch_update` closure has exactly one yield point, as its FIRST statement (so a scheduled
+    thread stops once per closure evaluation, after the load / failed CAS and before the next CAS — the step
+    granularity of `casStepThread`), and no other update function has one -/
+theorem src_cas_yield_points :
+    Generated.atomics_yield_points =
+      [("counter_increment", "none"), ("counter_absolute", "none"),
+       ("gauge_increment", "closure-head:atomics.gauge.cas"), ("gauge_decrement", "closure-head:atomics.gauge.cas"),
+       ("gauge_set", "none")] := by decide
+
+/-- obligation: `AtomicU64` is std's on every target with 64-bit atomics and `portable_atomic`'s on 32-bit
+    targets — the two `pub use` lines and nothing else define the name (a crate-local type with hand-written
+    `fetch_update`/`fetch_max`/`swap` would keep every body above textually identical) -/
+theorem src_atomic_u64_is_std :
+    Generated.atomics_atomic_u64_defs =
+      ["#[cfg(target_pointer_width = \"32\")] pub use portable_atomic::AtomicU64;",
+       "#[cfg(not(target_pointer_width = \"32\"))] pub use std::sync::atomic::AtomicU64;"]
+    ∧ Generated.atomics_items = ["use std::sync::atomic::Ordering;", "use super::{CounterFn, GaugeFn};",
+        "impl CounterFn for AtomicU64", "impl GaugeFn for AtomicU64"] := by decide
+
+/-- obligation: the three handle structs are `#[derive(Clone)] { inner: Option<Arc<dyn …Fn + Send + Sync>> }`
+    (`Handle I = Option I`, `Handle.clone h = h`: the derived clone copies the `Arc`), `noop()` is
+    `Self { inner: None }` (`Handle.noop`), and handles.rs has no impl besides Debug, the inherent ones, the
+    `Arc<T>` forwards and `From<Arc<T>>` — no hand-written `Clone`, `Drop` or `Deref` that could make a clone of
+    a clone (or the third live clone) behave differently from the handle it came from -/
+theorem src_handle_decls :
+    Generated.handles_struct_decls =
+      [("Counter", "derive(Clone)", "inner: Option<Arc<dyn CounterFn + Send + Sync>>"),
+       ("Gauge", "derive(Clone)", "inner: Option<Arc<dyn GaugeFn + Send + Sync>>"),
+       ("Histogram", "derive(Clone)", "inner: Option<Arc<dyn HistogramFn + Send + Sync>>")]
+    ∧ Generated.handles_noop_bodies =
+      [("Counter::noop", "Self { inner: None }"), ("Gauge::noop", "Self { inner: None }"),
+       ("Histogram::noop", "Self { inner: None }")]
+    ∧ Generated.handles_impl_headers =
+      ["impl Debug for Counter", "impl Debug for Gauge", "impl Debug for Histogram", "impl Counter", "impl Gauge",
+       "impl Histogram", "impl<T> CounterFn for Arc<T> where T: CounterFn,", "impl<T> GaugeFn for Arc<T> where T: GaugeFn,",
+       "impl<T> HistogramFn for Arc<T> where T: HistogramFn,",
+       "impl<T> From<Arc<T>> for Counter where T: CounterFn + Send + Sync + 'static,",
+       "impl<T> From<Arc<T>> for Gauge where T: GaugeFn + Send + Sync + 'static,",
+       "impl<T> From<Arc<T>> for Histogram where T: HistogramFn + Send + Sync + 'static,"] := by decide
+
+/-- obligation: the trait surface — `CounterFn`/`GaugeFn` have exactly the modelled methods (`Op`), taking `&self`
+    and a `u64`/`f64`, none with a default body; `HistogramFn` has `record` and `record_many`, the latter the only
+    default method (`HistFn.ofRecord`) -/
+theorem src_trait_decls :
+    Generated.handles_trait_decls =
+      [("CounterFn", ["fn increment(&self, value: u64)", "fn absolute(&self, value: u64)"]),
+       ("GaugeFn", ["fn increment(&self, value: f64)", "fn decrement(&self, value: f64)", "fn set(&self, value: f64)"]),
+       ("HistogramFn", ["fn record(&self, value: f64)", "fn record_many(&self, value: f64, count: usize) {default}"])] := by
+  decide
+
+/-- obligation: the modules the facts are read from are the ones compiled — `atomics`, `common`, `handles` are
+    declared once each in lib.rs, without `#[path]`/`#[cfg]` attributes; handles.rs imports only `Debug`, `Arc`
+    and `IntoF64` (no extension trait that could capture a method call of the pinned bodies) -/
+theorem src_module_files :
+    Generated.lib_mod_decls = ["pub mod atomics;", "mod common;", "mod handles;"]
+    ∧ Generated.handles_uses = ["use std::{fmt::Debug, sync::Arc};", "use crate::IntoF64;"] := by decide
+
+/-- the two-thread race the scheduled runs replay on the real code: A loads 0.1, B's `set(−0.0)` takes effect, A's
+    CAS fails and retries on −0.0, then B increments by 0.2: the log has three entries, the cell is their fold
+    (−0.0 + 0.1 = 0.1, + 0.2 = 0.30000000000000004), A's closure ran twice -/
+theorem cas_retry_witness :
+    let s := casRun ieeeCarrier casShape
+      (init 0x3fb999999999999a [[⟨some (), .gInc 0x3fb999999999999a⟩], [⟨some (), .gSet 0x8000000000000000⟩, ⟨some (), .gInc 0x3fc999999999999a⟩]])
+      [(0, false), (1, false), (0, false), (0, false), (1, false), (1, false)]
+    s.cell = 0x3fd3333333333334 ∧ s.log.length = 3 ∧ replay ieeeCarrier 0x3fb999999999999a s.log = s.cell := by
+  decide +kernel
 
 /-! ## non-vacuity -/
 
